@@ -22,6 +22,7 @@ PRIMS_R = {"read_int", "read_short_int", "read_int_neg", "read_string", "read_st
 class WireCtx:
     def __init__(self, prog):
         self.prog = prog
+        self.optional = {}          # qualname -> [optional segments: flag, condition, fields / defaults]
         ser = prog.module("src/serialization.py")
         self.consts = {}
         for name, v in ser.assigns.items():
@@ -124,9 +125,20 @@ def writer_ops(wc, func):
                 if inner:
                     seq.append((("rep", tuple(o for o, _f, _n in inner)), _field_of_expr(st.iter), st))
             elif isinstance(st, (ast.If, ast.While, ast.With, ast.Try)):
-                if any(isinstance(n, ast.Call) and (_simple_name(n) in PRIMS_W or _opaque_codec(wc, _simple_name(n), "write_")) for n in walk_no_nested(st)):
-                    raise AnalysisError("writer %s has conditional serialisation at line %d (unsupported shape)"
-                                        % (func._qualname, st.lineno))
+                has_w = lambda node: any(isinstance(n, ast.Call) and (_simple_name(n) in PRIMS_W or _opaque_codec(wc, _simple_name(n), "write_"))
+                                         for n in walk_no_nested(node))
+                if not has_w(st):
+                    continue
+                # optional segment:  <flag written just before> ; if <flag>: <writes>      (no writes in else)
+                if isinstance(st, ast.If) and not any(has_w(x) for x in st.orelse) and seq and seq[-1][0][0] == "bools" \
+                        and not has_w(st.test):
+                    inner = stmt_ops(st.body)
+                    seq.append((("opt", tuple(o for o, _f, _n in inner)), None, st))
+                    wc.optional.setdefault(func._qualname, []).append(
+                        {"side": "writer", "node": st, "cond": st.test, "flag_op": seq[-2], "fields": [(f_, n_) for _o, f_, n_ in inner]})
+                    continue
+                raise AnalysisError("writer %s has conditional serialisation at line %d (unsupported shape)"
+                                    % (func._qualname, st.lineno))
             else:
                 for n in walk_no_nested(st):
                     if isinstance(n, ast.Call) and (_simple_name(n) in PRIMS_W or _opaque_codec(wc, _simple_name(n), "write_")):
@@ -322,13 +334,38 @@ def reader_ops(wc, func):
                 raise AnalysisError("reader %s: reads inside an uncounted loop at line %d" % (func._qualname, st.lineno))
             return
         if isinstance(st, (ast.If, ast.While, ast.Try, ast.With)):
-            # reads under conditions are not part of a fixed layout
-            for n in walk_no_nested(st):
-                if isinstance(n, ast.Call) and one_read(n) is not None and n is not getattr(st, "test", None):
-                    # allow tests that do not read
-                    raise AnalysisError("reader %s has conditional deserialisation at line %d (unsupported shape)"
-                                        % (func._qualname, st.lineno))
-            return
+            has_r = lambda node: any(isinstance(n, ast.Call) and one_read(n) is not None for n in walk_no_nested(node))
+            if not has_r(st):
+                return
+            # optional segment:  if <flag just read / read in the test>: <reads> else: <defaults, no reads>
+            if isinstance(st, ast.If) and not any(has_r(x) for x in st.orelse) and any(has_r(x) for x in st.body):
+                flag_idx = None
+                if has_r(st.test):
+                    for c in _calls_in_eval_order(st.test):
+                        op = one_read(c)
+                        if op is not None:
+                            out.append((op, None, c))
+                    flag_idx = len(out) - 1
+                else:
+                    names_t = {n.id for n in ast.walk(st.test) if isinstance(n, ast.Name)}
+                    idxs = [temp_vars[v] for v in names_t if v in temp_vars]
+                    flag_idx = max(idxs) if idxs else None
+                if flag_idx is not None and flag_idx == len(out) - 1 and out[flag_idx][0][0] == "bools":
+                    start = len(out)
+                    for s_ in st.body:
+                        handle_stmt(s_)
+                    inner = out[start:]
+                    del out[start:]
+                    defaults = {}
+                    for s_ in st.orelse:
+                        if isinstance(s_, ast.Assign) and len(s_.targets) == 1 and target_field(s_.targets[0]):
+                            defaults[target_field(s_.targets[0])] = s_.value
+                    out.append((("opt", tuple(o for o, _f, _n in inner)), None, st))
+                    wc.optional.setdefault(func._qualname, []).append(
+                        {"side": "reader", "node": st, "cond": st.test, "fields": [(f_, n_) for _o, f_, n_ in inner], "defaults": defaults})
+                    return
+            raise AnalysisError("reader %s has conditional deserialisation at line %d (unsupported shape)"
+                                % (func._qualname, st.lineno))
         names = {}
         tgt_var = None
         if isinstance(st, ast.Assign) and len(st.targets) == 1:
@@ -384,6 +421,8 @@ def fmt(op):
             return "obj:%s" % op[1]
         if op[0] == "codec":
             return "codec:%s" % op[1]
+        if op[0] == "opt":
+            return "optional<%s>" % ",".join(fmt(o) for o in op[1])
         return op[0]
     if isinstance(op, tuple):
         return "(" + ",".join(fmt(o) for o in op) + ")"
